@@ -16,3 +16,28 @@ package loader
 //@   loop 1 invariant [names] namesOK(files)
 //@   loop 1 invariant [budget] 0 < remainingSize && remainingSize <= MaxDecompressedChartSize
 //@   loop 1 invariant [accounting] (GbytesRead - old(GbytesRead)) + remainingSize == MaxDecompressedChartSize
+
+// ---- C04: MergeMaps (load.go): one-level contract, recursion by contract, inputs untouched
+
+//@ ghost func istable(v interface{}) bool = typeis(v, map[string]interface{})
+//@ ghost func mergedFrom(r gomap[string]interface{}, a gomap[string]interface{}, b gomap[string]interface{}) bool
+//@ ghost func bothTables(a gomap[string]interface{}, b gomap[string]interface{}, k string) bool = has(b, k) && istable(b[k]) && has(a, k) && istable(a[k])
+
+//@ func MergeMaps
+//@   props C04
+//@   ensures [fresh] result != nil && fresh(result)
+//@   marks mergedFrom(result, a, b)
+//@   ensures [b-wins] forall k string :: has(b, k) && !bothTables(a, b, k) ==> has(result, k) && result[k] == b[k]
+//@   ensures [a-kept] forall k string :: !has(b, k) ==> has(result, k) == has(a, k) && (has(a, k) ==> result[k] == a[k])
+//@   ensures [tables-merge] forall k string :: bothTables(a, b, k) ==> has(result, k) && istable(result[k]) && mergedFrom(result[k].(map[string]interface{}), a[k].(map[string]interface{}), b[k].(map[string]interface{}))
+//@   ensures [inputs-untouched] forall m gomap[string]interface{}, k string :: !fresh(m) ==> has(m, k) == old(has(m, k)) && m[k] == old(m[k])
+//@   loop 1 invariant out != nil && fresh(out)
+//@   loop 1 invariant forall k string :: has(out, k) <==> #done[k]
+//@   loop 1 invariant forall k string :: #done[k] ==> has(a, k) && out[k] == a[k]
+//@   loop 1 invariant forall m gomap[string]interface{}, k string :: !fresh(m) ==> has(m, k) == old(has(m, k)) && m[k] == old(m[k])
+//@   loop 2 invariant out != nil && fresh(out)
+//@   loop 2 invariant forall k string :: !#done[k] ==> has(out, k) == has(a, k) && (has(a, k) ==> out[k] == a[k])
+//@   loop 2 invariant forall k string :: #done[k] && !bothTables(a, b, k) ==> has(out, k) && out[k] == b[k]
+//@   loop 2 invariant forall k string :: #done[k] && bothTables(a, b, k) ==> has(out, k) && istable(out[k]) && mergedFrom(out[k].(map[string]interface{}), a[k].(map[string]interface{}), b[k].(map[string]interface{}))
+//@   loop 2 invariant forall k string :: #done[k] ==> has(b, k)
+//@   loop 2 invariant forall m gomap[string]interface{}, k string :: !fresh(m) ==> has(m, k) == old(has(m, k)) && m[k] == old(m[k])
